@@ -243,7 +243,7 @@ Example C11_no_password_example :
   sz_decompressor_precheck [[33]] false = Ok tt.
 Proof. exact no_password_example. Qed.
 
-(* chains [AES] and [Copy, AES], ANY key (Db' arbitrary): CrcError, or members with the stored CRCs; never a hang *)
+(* chains [AES] and [Copy, AES], ANY key (Db' arbitrary): CrcError -- nothing else --, or members with the stored CRCs *)
 Theorem C11_wrong_password_error_or_collision : forall Db' : bytes -> bytes,
   (forall x : bytes, length x = 16%nat -> length (Db' x) = 16%nat) ->
   forall iv packed : bytes, length iv = 16%nat -> blen packed mod 16 = 0 ->
@@ -262,7 +262,17 @@ Theorem C11_delivered_different_is_collision : forall (stream : bytes) (sizes : 
 Proof. exact delivered_different_is_collision. Qed.
 Print Assumptions C11_delivered_different_is_collision.
 
-(* any chain behind AES: what is delivered has the stored CRCs ... *)
+(* ANY chain behind AES, any key: an error (CrcError; Bad7zFile when the decoder runs dry before the declared size;
+   the decoder's own error) or members with the stored CRCs -- full strength: the call always returns *)
+Theorem C11_wrong_password_any_chain : forall (Db' : bytes -> bytes) (Dz : bytes -> res bytes) (iv packed : bytes)
+    (sizes crcs : list Z),
+  match read_chain_folder Db' Dz iv packed sizes crcs with
+  | Ok gs => Forall2 (fun g c => crc32 g = c) gs (firstn (length gs) crcs)
+  | Err e => e = ECrc \/ e = EBad7z \/ Dz (fst (cbc_dec Db' iv packed)) = Err e
+  end.
+Proof. exact wrong_password_any_chain. Qed.
+Print Assumptions C11_wrong_password_any_chain.
+
 Theorem C11_wrong_password_partial : forall (Db' : bytes -> bytes) (Dz : bytes -> res bytes) (iv packed : bytes)
     (sizes crcs : list Z) (gs : list bytes),
   read_chain_folder Db' Dz iv packed sizes crcs = Ok gs ->
@@ -270,15 +280,10 @@ Theorem C11_wrong_password_partial : forall (Db' : bytes -> bytes) (Dz : bytes -
 Proof. exact wrong_password_partial. Qed.
 Print Assumptions C11_wrong_password_partial.
 
-(* ... but "fails with an error" is REFUTED there: a decoder that finds an early end of stream in the garbage
-   yields nothing more and Worker.decompress waits for ever (EFuel).  Replay: harness (deflate+aes, lzma2+aes). *)
-Theorem C11_wrong_password_hang_refuted :
-  exists (Db' : bytes -> bytes) (Dz : bytes -> res bytes) (iv packed : bytes) (sizes crcs : list Z),
-    (forall x, length x = 16%nat -> length (Db' x) = 16%nat) /\ length iv = 16%nat /\
-    blen packed mod 16 = 0 /\ total sizes <= blen packed /\
-    read_chain_folder Db' Dz iv packed sizes crcs = Err EFuel.
-Proof. exact wrong_password_hang_refuted. Qed.
-Print Assumptions C11_wrong_password_hang_refuted.
+(* the decoder finds an early end of stream in the garbage: Bad7zFile (this case used to hang, see the harness) *)
+Example C11_wrong_password_decoder_runs_dry :
+  read_chain_folder toyD (fun _ => Ok []) ex_iv (ex_plain 32) [24] [0] = Err EBad7z.
+Proof. exact wrong_password_decoder_runs_dry. Qed.
 
 Theorem C11_right_password_delivers_original : forall Eb Db : bytes -> bytes,
   (forall x : bytes, length x = 16%nat -> Db (Eb x) = x) ->
